@@ -141,9 +141,23 @@ def families(ctx, cfg):
             if t and t.get("k") == "Call":
                 c = mirflow.norm(t.get("resolved") or t.get("callee")) or ""
                 callers[_strip_closure(c)].add(_strip_closure(n))
+            # a fn item mentioned as a value (`chunks(6).map(Xti::from_bytes)`): whoever mentions it stands for its callers
+            def _fn_values(x):
+                if isinstance(x, dict):
+                    c_ = x.get("const")
+                    if isinstance(c_, dict) and c_.get("fn"):
+                        yield mirflow.norm(c_["fn"])
+                    for v_ in x.values():
+                        yield from _fn_values(v_)
+                elif isinstance(x, list):
+                    for v_ in x:
+                        yield from _fn_values(v_)
             for st in b.get("stmts", []):
-                # a closure / fn item mentioned as a value (passed to an adaptor)
-                pass
+                for f_ in _fn_values(st):
+                    callers[_strip_closure(f_)].add(_strip_closure(n))
+            if t and t.get("k") == "Call":
+                for f_ in _fn_values(t.get("args")):
+                    callers[_strip_closure(f_)].add(_strip_closure(n))
     fam = {}
     for n in runs:
         b = _strip_closure(n)
